@@ -135,7 +135,7 @@ package ledger
 //@   ensures err != nil ==> isErr(err, common.ErrInvalidQuery) || isErr(err, ErrMissingFeature)
 
 //@ func (h accountsResourceHandler) Expand(opts common.ResourceQuery[any], property string) (r *bun.SelectQuery, j *common.JoinCondition, err error)
-//@   property C35
+//@   property C35 C38
 //@   requires h.store != nil
 //@   modifies qWhere, qWhereCount, qOrderExpr
 //@   ensures property == "volumes" && h.store.ledger.Features["MOVES_HISTORY"] != "ON" ==> err != nil && r == nil
